@@ -238,7 +238,20 @@ pub struct RunResult {
     pub aborted: Option<String>,
 }
 
+/// Hash seed (S1) under which the next executions run; every execution runs on a fresh OS thread
+/// after reseeding the shim, so leg B varies hash seeds together with schedules.
+pub static HASH_SEED: std::sync::atomic::AtomicU64 = std::sync::atomic::AtomicU64::new(0);
+
 pub fn execute(sc: &Scenario, cases: &[Case], kind: Kind, seed: u64, max_steps: usize) -> RunResult {
+    let hs = HASH_SEED.load(std::sync::atomic::Ordering::SeqCst);
+    if simcore::seam::present() {
+        simcore::seam::epoch(hs, move || execute_here(sc, cases, kind, seed, max_steps))
+    } else {
+        execute_here(sc, cases, kind, seed, max_steps)
+    }
+}
+
+fn execute_here(sc: &Scenario, cases: &[Case], kind: Kind, seed: u64, max_steps: usize) -> RunResult {
     let trace = Arc::new(Mutex::new(Trace::default()));
     let sink: Arc<Mutex<Vec<Obs>>> = Arc::new(Mutex::new(Vec::new()));
     let scheduler = SimScheduler::new(kind, seed, Arc::clone(&trace));
@@ -584,6 +597,7 @@ fn leg_b(o: &Opts) -> i32 {
                         .flat_map(|a| [false, true].into_iter().map(move |d| TaskOp::CompileCommit { case: local, args: a, debug: d }))
                         .collect()],
                 };
+                HASH_SEED.store(mix(*gi as u64 ^ o.seed) | 1, std::sync::atomic::Ordering::SeqCst);
                 let r = execute(&sc, &cases, Kind::RandomWalk { switch_permille: 0 }, 0, 50_000_000);
                 match judge(&sc, &r, &reference, 50_000_000) {
                     Ok(None) => rep.count("standin_crosschecks_equal_to_real_dependency", 1),
@@ -608,6 +622,8 @@ fn leg_b(o: &Opts) -> i32 {
             continue;
         }
         let sc = draw_scenario(&mut rng, &cases);
+        let run_hash_seed = rng.next() | 1;
+        HASH_SEED.store(run_hash_seed, std::sync::atomic::Ordering::SeqCst);
         // schedule 0: never switch voluntarily -> sequential step count
         let base = execute(&sc, &cases, Kind::RandomWalk { switch_permille: 0 }, rng.next(), 50_000_000);
         let base_steps = base.trace.steps.max(10);
@@ -638,7 +654,7 @@ fn leg_b(o: &Opts) -> i32 {
             let dkey = fnv1a(&r.trace.decisions.iter().flat_map(|d| d.to_le_bytes()).collect::<Vec<u8>>());
             let verdict = judge(&sc, &r, &reference, max_steps);
             rep.event(&format!(
-                "B\trun {run}.{si}\t{}\tcases={:?}\tsched={}\tsteps={} switches={} preempt={} dec={:016x}\tobs=[{}]\t-> {}",
+                "B\trun {run}.{si}\th={run_hash_seed:x}\t{}\tcases={:?}\tsched={}\tsteps={} switches={} preempt={} dec={:016x}\tobs=[{}]\t-> {}",
                 sc.canonical(),
                 cases.iter().map(|c| c.id.as_str()).collect::<Vec<_>>(),
                 kind_json(&kind),
@@ -740,7 +756,7 @@ fn leg_b(o: &Opts) -> i32 {
                         "verif_seed": o.seed, "run": run, "schedule": si,
                         "programs": cases.iter().map(|c| c.to_json()).collect::<Vec<_>>(),
                         "scenario_ops": fsc.to_json(),
-                        "decisions": fdec, "max_steps": max_steps,
+                        "decisions": fdec, "max_steps": max_steps, "hash_seeds": [run_hash_seed.to_string()],
                         "expected": fv.expected, "observed": fv.observed, "minimised": info,
                         "original": {"scenario_ops": sc.to_json(), "scheduler": kind_json(&kind)},
                     });
@@ -779,7 +795,9 @@ fn replay(o: &Opts) -> i32 {
     let decisions: Vec<u32> = doc.get("decisions").and_then(|d| d.as_array()).map(|a| a.iter().filter_map(|x| x.as_u64().map(|x| x as u32)).collect()).unwrap_or_default();
     let max_steps = doc.get("max_steps").and_then(|m| m.as_u64()).unwrap_or(50_000_000) as usize;
     let class = doc.get("class").and_then(|c| c.as_str()).unwrap_or("").to_string();
-    // sequential reference, computed first, in its own execution
+    let hs: u64 = doc.get("hash_seeds").and_then(|h| h.get(0)).and_then(|h| h.as_str()).and_then(|h| h.parse().ok()).unwrap_or(0);
+    // sequential reference, computed first, in its own execution (hash seed 0)
+    HASH_SEED.store(0, std::sync::atomic::Ordering::SeqCst);
     let mut table: std::collections::BTreeMap<(usize, usize, bool), Outcome> = Default::default();
     for (ci, c) in cases.iter().enumerate() {
         let seq = Scenario {
@@ -794,6 +812,7 @@ fn replay(o: &Opts) -> i32 {
         }
     }
     let reference = |c: usize, a: usize, d: bool| table.get(&(c, a, d)).cloned();
+    HASH_SEED.store(hs, std::sync::atomic::Ordering::SeqCst);
     let r = execute(&sc, &cases, Kind::Replay { decisions }, 0, max_steps);
     for ob in &r.obs {
         println!("task {} op {} {} -> {} {}", ob.task, ob.idx, ob.what, ob.got.key(), if let Outcome::Panic(p) = &ob.got { p.clone() } else { String::new() });
